@@ -64,6 +64,8 @@ def run(ctx):
     R4 = ctx.rule('C19.R4', 'archive_traits loaders: every read_chunk(p, n) writes inside the object p points to (n <= sizeof(T) for scalars, n <= v.size()*sizeof(T) for the resized vector)')
     R5 = ctx.rule('C19.R5', 'next_chunk_size rejects only what does not fit: every throw is reachable only when fewer than 4 header bytes remain or the announced length exceeds the remaining payload (a well-formed last chunk, also an empty one, is accepted)')
     R6 = ctx.rule('C19.R6', 'container loaders rebuild the container in archive order: elements are appended (no position, end() as position, or an insert_iterator); a fixed position such as begin() reverses the order of equal keys / of the sequence')
+    R7 = ctx.rule('C19.R7', 'reader cursor arithmetic: the length word is the 4 bytes at the cursor, the payload handed out starts 4 bytes after the cursor position at which the length was read, and the cursor ends exactly 4 + payload bytes further')
+    R8 = ctx.rule('C19.R8', 'archive state: str(s) installs s, load mode and cursor 0; mode(m) and reset() rewind to 0; assignment copies buffer, cursor and mode')
     R3 = ctx.rule('C19.R3', 'save and load of every archive_traits specialisation perform the same chunk operations on every path')
 
     E = linbound.Engine(P, inline_depth=2 if ctx.tier == 'quick' else 3)
@@ -197,6 +199,107 @@ def run(ctx):
                 ctx.check(not lp, R6, '%s:insert_iterator:created-once-before-the-loop' % tname, 'the insert position is reset on every element', f.loc(i))
     ctx.check(n6 >= 4, R6, 'container-loaders-found', 'expected the insert sites of the map / multimap / sequence loaders (%d found)' % n6, AR)
     ctx.floor(R6, 4)
+
+    # R7: cursor arithmetic of the readers
+    from vlib.lin import Lin as _L19
+    PTR = 'this.f:' + AR + '::ptr_'
+    CSTR = 'this.f:' + AR + '::buffer_.c_str()'
+
+    def cursor_at(f, S_, node):
+        """symbolic advance of ptr_ (relative to its value on entry) at `node`; None if a write neither dominates nor is excluded, or is not an increment"""
+        tot = _L19.const(0)
+        for w in q.field_writes(f, 'archive::ptr_'):
+            n_ = f.N(w)
+            if node is not None and not q.reaches(f, w, node):
+                continue
+            if node is not None and not q.before(f, w, node):
+                return None
+            if node is None and not q.always_before_exit(f, [w]):
+                return None
+            if n_['k'] == 'CompoundAssignOperator' and n_.get('op') == '+=':
+                tot = tot + S_.lin(n_['ch'][1])
+            elif n_['k'] == 'BinaryOperator' and n_.get('op') == '=':
+                d_ = S_.lin(n_['ch'][1]) - _L19.atom(PTR)
+                if PTR in d_.t:
+                    return None
+                tot = tot + d_
+            else:
+                return None
+        return tot
+
+    def offset_of(e):
+        """e == c_str() + ptr_ + k  ->  k (a Lin without those two atoms), else None"""
+        if e.t.get(CSTR) != 1 or e.t.get(PTR) != 1:
+            return None
+        return e - _L19.atom(CSTR) - _L19.atom(PTR)
+    ncs = P.fn(AR + '::next_chunk_size')
+    Sn = q.symb_with_locals(ncs)
+    mcs = [i for i in ncs.calls() if ncs.callee(i) == 'memcpy']
+    okn = len(mcs) == 1
+    if okn:
+        a = ncs.args(mcs[0])
+        off = offset_of(Sn.lin(a[1]))
+        adv = cursor_at(ncs, Sn, mcs[0])
+        okn = off is not None and adv is not None and (off + adv).is_const() and (off + adv).c == 0 and ncs.const_value(a[2]) == 4 and not q.field_writes(ncs, 'archive::ptr_')
+        szv = [r for r in ncs.subtree_refs(a[0]) if r.startswith('v:')]
+        rets = [r for r in ncs.returns() if ncs.ret_value(r) is not None]
+        okn = okn and len(szv) == 1 and bool(rets) and all(ncs.ref_of(ncs.ret_value(r)) == szv[0] for r in rets) and (ncs.types[[d['t'] for i in ncs.all_nodes() if ncs.N(i)['k'] == 'DeclStmt' for d in ncs.N(i)['decls'] if d['ref'] == szv[0]][0]] or '') in ('uint32_t', 'unsigned int')
+    ctx.check(okn, R7, 'next_chunk_size:length-word-is-the-4-bytes-at-the-cursor', 'the chunk length is not read as the 32-bit word at the cursor (or the cursor moves while peeking)', ncs.where)
+    Sr = q.symb_with_locals(rc)
+    mcr = [i for i in rc.calls() if rc.callee(i) == 'memcpy']
+    okr = len(mcr) == 1
+    if okr:
+        a = rc.args(mcr[0])
+        off, adv, end_ = offset_of(Sr.lin(a[1])), cursor_at(rc, Sr, mcr[0]), cursor_at(rc, Sr, None)
+        okr = off is not None and adv is not None and end_ is not None and (off + adv - _L19.const(4)).is_const() and (off + adv - _L19.const(4)).c == 0 and \
+            rc.ref_of(a[2]) == lenp and (end_ - _L19.const(4) - _L19.atom(lenp)).is_const() and (end_ - _L19.const(4) - _L19.atom(lenp)).c == 0 and rc.ref_of(a[0]) == q.param_by_index(rc, 0)
+    ctx.check(okr, R7, 'read_chunk:payload-at-cursor+4:cursor-advances-4+len', 'read_chunk copies from the wrong offset or leaves the cursor somewhere else than behind the chunk', rc.where)
+    rs_ = P.fn(AR + '::read_chunk_as_string')
+    Ss = q.symb_with_locals(rs_)
+    sc_ = [i for i in rs_.calls() if rs_.N(i)['k'] in ('CXXConstructExpr', 'CXXTemporaryObjectExpr') and 'basic_string' in (rs_.callee(i) or '') and len([x for x in rs_.args(i) if rs_.N(x)['k'] != 'CXXDefaultArgExpr']) == 2]
+    oks = len(sc_) == 1
+    if oks:
+        a = rs_.args(sc_[0])
+        NS = 'this.next_chunk_size()'
+        off, adv, end_ = offset_of(Ss.lin(a[0])), cursor_at(rs_, Ss, sc_[0]), cursor_at(rs_, Ss, None)
+        ln_ = Ss.lin(a[1])
+        oks = off is not None and adv is not None and end_ is not None and (off + adv - _L19.const(4)).is_const() and (off + adv - _L19.const(4)).c == 0 and \
+            ln_.t == {NS: 1} and ln_.c == 0 and (end_ - _L19.const(4) - ln_).is_const() and (end_ - _L19.const(4) - ln_).c == 0 and len([i for i in rs_.calls() if rs_.bcallee(i) == AR + '::next_chunk_size']) == 1
+    ctx.check(oks, R7, 'read_chunk_as_string:payload-at-cursor+4:cursor-advances-4+size', 'read_chunk_as_string takes the text from the wrong offset / length or leaves the cursor somewhere else than behind the chunk', rs_.where)
+    ctx.floor(R7, 3)
+
+    # R8: state installation and copies
+    for nm_, want in (('str', {'buffer_': 'p', 'ptr_': 0, 'mode_': 'load_from_archive'}), ('mode', {'ptr_': 0, 'mode_': 'p'}), ('reset', {'ptr_': 0})):
+        fs_ = [f for f in P.by_bname.get(AR + '::' + nm_, []) if f.entry is not None and ((nm_ == 'reset') or len(f.params) == 1)]
+        ctx.check(len(fs_) == 1, R8, '%s:setter-found' % nm_, 'setter not found', AR)
+        for f in fs_:
+            for fld, w_ in sorted(want.items()):
+                ws_ = [w for w in q.field_writes(f, 'archive::' + fld)]
+                okw = len(ws_) == 1 and q.always_before_exit(f, ws_)
+                if okw:
+                    rhs = f.N(ws_[0])['ch'][-1]
+                    if w_ == 'p':
+                        okw = f.ref_of(rhs) == f.params[0]['ref']
+                    elif w_ == 0:
+                        okw = f.const_value(rhs) == 0
+                    else:
+                        okw = any(r.endswith('::' + w_) for r in f.subtree_refs(rhs))
+                ctx.check(okw, R8, '%s:%s' % (nm_, fld), '%s() does not set %s to %s' % (nm_, fld, 'its argument' if w_ == 'p' else w_), f.where)
+    for f in [g for g in P.fns.values() if g.brecord == AR and g.short == 'operator=' and g.entry is not None]:
+        oth = f.params[0]['ref']
+        mv = '&&' in (f.types[f.params[0]['t']] or '')
+        for fld in ('buffer_', 'ptr_', 'mode_'):
+            ws_ = [w for w in q.field_writes(f, 'archive::' + fld)]
+            okw = len(ws_) == 1
+            if okw:
+                rhs = f.N(ws_[0])['ch'][-1]
+                okw = oth in f.subtree_refs(rhs) and any(model.strip_targs(r).endswith('archive::' + fld) for r in f.subtree_refs(rhs))
+                g_self = f.gate_edges(lambda atom, pol, f=f: f.N(atom)['k'] == 'BinaryOperator' and f.N(atom).get('op') in ('!=', '==') and any(f.N(j)['k'] == 'CXXThisExpr' for j in f.walk(atom)) and
+                                      ((f.N(atom)['op'] == '!=' and pol is False) or (f.N(atom)['op'] == '==' and pol is True)))
+                reach = f.reachable_blocks(cut_blocks=q.blocks_of(f, ws_), cut_edges=g_self)
+                okw = okw and f.exit not in reach
+            ctx.check(okw, R8, 'operator=(%s):%s-copied' % ('move' if mv else 'copy', fld), 'assignment does not carry %s over' % fld, f.where)
+    ctx.floor(R8, 10)
 
     # R3
     pairs = {}
